@@ -325,6 +325,14 @@ def assemble(unit_cfg, src="/repo/src"):
             fc = fnc.get(fi["key"])
             if fc is not None:
                 fc.used = True
+            assumed_fn = fc is not None and (fc.external_body or fi["key"] in unit_cfg.get("assume", {}))
+            if assumed_fn:
+                # assumed contract: only the signature-level contract is spliced; the body is not verified by Verus
+                for lc_ in fc.loops.values():
+                    lc_.used = True
+                for cc_ in fc.closures.values():
+                    cc_.used = True
+                fc.after_used.update(fc.after.keys())
             if len(tag) == 2:
                 what = tag[1]
                 if what == "ATTR":
@@ -362,14 +370,20 @@ def assemble(unit_cfg, src="/repo/src"):
                         if fc.requires and not fc.no_canary:
                             canary_specs.append((fi, fc, it))
                 elif what == "ENTRY":
-                    if fc is not None and fc.entry:
+                    if fc is not None and fc.entry and not assumed_fn:
                         out.add("\n" + "\n".join(fc.entry) + "\n")
                 elif what == "TAIL":
-                    if fc is not None and fc.tail:
+                    if fc is not None and fc.tail and not assumed_fn:
                         out.add("\n" + "\n".join(fc.tail) + "\n")
                 continue
             # loop / closure / statement markers
             sub, what = tag[1], tag[2]
+            if assumed_fn:
+                if sub.startswith("C") and what == "RET":
+                    ci_ = fi["closures"][int(sub[1:])]
+                    if ci_["ret"]:
+                        out.add("-> %s" % ci_["ret"])
+                continue
             if sub.startswith("S"):
                 si = fi["stmts"][int(sub[1:])]
                 if fc is not None and si["key"] in fc.after:
@@ -472,6 +486,8 @@ def assemble(unit_cfg, src="/repo/src"):
 
     # unused contracts = lost anchors
     for k, fc in fnc.items():
+        if not fc.used and k in unit_cfg.get("unused_contracts_ok", []):
+            continue
         if not fc.used:
             raise LostAnchor("contract for fn %s has no extracted function (renamed or removed?)" % k)
         for lk, lc in fc.loops.items():
